@@ -188,7 +188,7 @@ package xslices
 
 //@ ext slices.Clone(s) (r)
 //@   ensures len(r) == len(s) && (forall k int {r[k]} :: 0 <= k && k < len(s) ==> r[k] == s[k])
-//@   ensures len(s) > 0 ==> fresh(r)
+//@   ensures len(s) > 0 ==> fresh(r) && off(r) == 0
 
 //@ ext slices.Equal(a, b) (r)
 //@   ispure
@@ -231,7 +231,7 @@ package xslices
 //@ func Clone
 //@   props C19
 //@   ensures len(result) == len(s) && (forall k int {result[k]} :: 0 <= k && k < len(s) ==> result[k] == s[k])
-//@   ensures len(s) > 0 ==> fresh(result)
+//@   ensures len(s) > 0 ==> fresh(result) && off(result) == 0
 
 //@ func Equal
 //@   props C19
@@ -346,3 +346,95 @@ package xslices
 //@   ensures forall j int, j2 int {result[j], result[j2]} :: 0 <= j && j < j2 && j2 < len(result) ==> src[j] < src[j2] && result[j] != result[j2]
 //@   ensures forall t int {old(s[t])} :: 0 <= t && t < len(s) ==> (exists j int :: 0 <= j && j < len(result) && result[j] == old(s[t]))
 //@   ensures forall t int {s[t]} :: len(result) <= t && t < len(s) ==> s[t] == zero(T)
+
+// ---- Group: m[u] is the subsequence of s with f == u, in order ----
+// gcnt(f, s, u, hi) = number of t < hi with f(s[t]) == u; the item at position t of s sits at
+// position gcnt(f, s, f(s[t]), t) (its rank within its group) of m[f(s[t])], and len(m[u]) is the
+// size of the group: together these say that m[u] is exactly the subsequence of group u in order.
+//@ ufun gcnt(f, s, u, hi) int
+//@ axiom forall u U {gcnt(f, s, u, 0)} :: gcnt(f, s, u, 0) == 0
+//@ axiom forall u U, hi int {gcnt(f, s, u, hi)} :: 0 < hi ==> gcnt(f, s, u, hi) == gcnt(f, s, u, hi-1) + (f(s[hi-1]) == u ? 1 : 0)
+
+//@ func Group
+//@   props C19
+//@   requires f != nil
+//@   loop 0: invariant m != nil && fresh(m)
+//@   loop 0: invariant forall u U {has(m, u)} :: has(m, u) <==> gcnt(f, s, u, idx0) > 0
+//@   loop 0: invariant forall u U {gcnt(f, s, u, idx0)} :: gcnt(f, s, u, idx0) >= 0
+//@   loop 0: invariant forall u U {m[u]} :: has(m, u) ==> fresh(m[u]) && len(m[u]) == gcnt(f, s, u, idx0)
+//@   loop 0: invariant forall u U, v U {m[u], m[v]} :: has(m, u) && has(m, v) && u != v ==> arr(m[u]) != arr(m[v])
+//@   loop 0: invariant forall t int {s[t]} :: 0 <= t && t < idx0 ==> 0 <= gcnt(f, s, f(s[t]), t) && gcnt(f, s, f(s[t]), t) < gcnt(f, s, f(s[t]), idx0) && m[f(s[t])][gcnt(f, s, f(s[t]), t)] == s[t]
+//@   ensures result != nil && fresh(result)
+//@   ensures forall u U {has(result, u)} :: has(result, u) <==> gcnt(f, s, u, len(s)) > 0
+//@   ensures forall u U {result[u]} :: has(result, u) ==> len(result[u]) == gcnt(f, s, u, len(s))
+//@   ensures forall t int {s[t]} :: 0 <= t && t < len(s) ==> 0 <= gcnt(f, s, f(s[t]), t) && gcnt(f, s, f(s[t]), t) < len(result[f(s[t])]) && result[f(s[t])][gcnt(f, s, f(s[t]), t)] == s[t]
+//@   ensures forall t int {s[t]} :: 0 <= t && t < len(s) ==> s[t] == old(s[t])
+
+// ---- Compact family (go1.21 delegations): the first item of every maximal run of equal neighbours ----
+// Assumed contracts of slices.Compact/CompactFunc (Go 1.22+: in place, tail cleared), with the
+// witness src[j] = index in the input of the j-th kept item.
+
+//@ ext slices.Compact(s) (r)
+//@   modifies elems(s)
+//@   ghostinit src := lambda j int :: 0
+//@   ensures 0 <= len(r) && len(r) <= len(s) && arr(r) == arr(s) && off(r) == off(s) && (len(s) > 0 ==> len(r) >= 1 && src[0] == 0)
+//@   ensures forall j int {src[j]} :: 0 <= j && j < len(r) ==> 0 <= src[j] && src[j] < len(s) && j <= src[j] && r[j] == old(s[src[j]])
+//@   ensures forall j int {src[j]} :: 1 <= j && j < len(r) ==> src[j-1] < src[j] && old(s[src[j]]) != old(s[src[j] - 1])
+//@   ensures forall j int, t int {src[j], old(s[t])} :: 0 <= j && j < len(r) && src[j] < t && t < len(s) && (j + 1 < len(r) ==> t < src[j+1]) ==> old(s[t]) == old(s[t-1])
+//@   ensures forall t int {s[t]} :: len(r) <= t && t < len(s) ==> s[t] == zero(E)
+//@   ensures forall k int {row(s)[k]} :: k < off(s) || k >= off(s) + len(s) ==> row(s)[k] == old(row(s)[k])
+
+//@ ext slices.CompactFunc(s, eq) (r)
+//@   requires eq != nil
+//@   modifies elems(s)
+//@   ghostinit src := lambda j int :: 0
+//@   ensures 0 <= len(r) && len(r) <= len(s) && arr(r) == arr(s) && off(r) == off(s) && (len(s) > 0 ==> len(r) >= 1 && src[0] == 0)
+//@   ensures forall j int {src[j]} :: 0 <= j && j < len(r) ==> 0 <= src[j] && src[j] < len(s) && j <= src[j] && r[j] == old(s[src[j]])
+//@   ensures forall j int {src[j]} :: 1 <= j && j < len(r) ==> src[j-1] < src[j] && !eq(old(s[src[j]]), old(s[src[j] - 1]))
+//@   ensures forall j int, t int {src[j], old(s[t])} :: 0 <= j && j < len(r) && src[j] < t && t < len(s) && (j + 1 < len(r) ==> t < src[j+1]) ==> eq(old(s[t]), old(s[t-1]))
+//@   ensures forall t int {s[t]} :: len(r) <= t && t < len(s) ==> s[t] == zero(E)
+//@   ensures forall k int {row(s)[k]} :: k < off(s) || k >= off(s) + len(s) ==> row(s)[k] == old(row(s)[k])
+
+//@ func CompactInPlace
+//@   props C07 C19
+//@   modifies elems(s)
+//@   ghostinit src := lambda j int :: 0
+//@   after call Compact[0]: ghost src := callghost_src
+//@   ensures 0 <= len(result) && len(result) <= len(s) && arr(result) == arr(s) && off(result) == off(s) && (len(s) > 0 ==> len(result) >= 1 && src[0] == 0)
+//@   ensures forall j int {src[j]} :: 0 <= j && j < len(result) ==> 0 <= src[j] && src[j] < len(s) && result[j] == old(s[src[j]])
+//@   ensures forall j int {src[j]} :: 1 <= j && j < len(result) ==> src[j-1] < src[j] && old(s[src[j]]) != old(s[src[j] - 1])
+//@   ensures forall j int, t int {src[j], old(s[t])} :: 0 <= j && j < len(result) && src[j] < t && t < len(s) && (j + 1 < len(result) ==> t < src[j+1]) ==> old(s[t]) == old(s[t-1])
+//@   ensures forall k int {row(s)[k]} :: k < off(s) || k >= off(s) + len(s) ==> row(s)[k] == old(row(s)[k])
+
+//@ func Compact
+//@   props C07 C19
+//@   ghostinit src := lambda j int :: 0
+//@   after call Compact[0]: ghost src := callghost_src
+//@   ensures 0 <= len(result) && len(result) <= len(s) && (len(s) > 0 ==> len(result) >= 1 && src[0] == 0 && fresh(result))
+//@   ensures forall t int {s[t]} :: 0 <= t && t < len(s) ==> s[t] == old(s[t])
+//@   ensures forall j int {src[j]} :: 0 <= j && j < len(result) ==> 0 <= src[j] && src[j] < len(s) && result[j] == s[src[j]]
+//@   ensures forall j int {src[j]} :: 1 <= j && j < len(result) ==> src[j-1] < src[j] && s[src[j]] != s[src[j] - 1]
+//@   ensures forall j int, t int {src[j], s[t]} :: 0 <= j && j < len(result) && src[j] < t && t < len(s) && (j + 1 < len(result) ==> t < src[j+1]) ==> s[t] == s[t-1]
+
+//@ func CompactInPlaceFunc
+//@   props C07 C19
+//@   requires eq != nil
+//@   modifies elems(s)
+//@   ghostinit src := lambda j int :: 0
+//@   after call CompactFunc[0]: ghost src := callghost_src
+//@   ensures 0 <= len(result) && len(result) <= len(s) && arr(result) == arr(s) && off(result) == off(s) && (len(s) > 0 ==> len(result) >= 1 && src[0] == 0)
+//@   ensures forall j int {src[j]} :: 0 <= j && j < len(result) ==> 0 <= src[j] && src[j] < len(s) && result[j] == old(s[src[j]])
+//@   ensures forall j int {src[j]} :: 1 <= j && j < len(result) ==> src[j-1] < src[j] && !eq(old(s[src[j]]), old(s[src[j] - 1]))
+//@   ensures forall j int, t int {src[j], old(s[t])} :: 0 <= j && j < len(result) && src[j] < t && t < len(s) && (j + 1 < len(result) ==> t < src[j+1]) ==> eq(old(s[t]), old(s[t-1]))
+//@   ensures forall k int {row(s)[k]} :: k < off(s) || k >= off(s) + len(s) ==> row(s)[k] == old(row(s)[k])
+
+//@ func CompactFunc
+//@   props C07 C19
+//@   requires eq != nil
+//@   ghostinit src := lambda j int :: 0
+//@   after call CompactFunc[0]: ghost src := callghost_src
+//@   ensures 0 <= len(result) && len(result) <= len(s) && (len(s) > 0 ==> len(result) >= 1 && src[0] == 0 && fresh(result))
+//@   ensures forall t int {s[t]} :: 0 <= t && t < len(s) ==> s[t] == old(s[t])
+//@   ensures forall j int {src[j]} :: 0 <= j && j < len(result) ==> 0 <= src[j] && src[j] < len(s) && result[j] == s[src[j]]
+//@   ensures forall j int {src[j]} :: 1 <= j && j < len(result) ==> src[j-1] < src[j] && !eq(s[src[j]], s[src[j] - 1])
+//@   ensures forall j int, t int {src[j], s[t]} :: 0 <= j && j < len(result) && src[j] < t && t < len(s) && (j + 1 < len(result) ==> t < src[j+1]) ==> eq(s[t], s[t-1])
